@@ -894,15 +894,16 @@ func AdoptSession(p Persistence, c *Config) (client *Client, warn []error, fatal
 		return storeOrderPerKey[publishReleaseKeys[i]] < storeOrderPerKey[publishReleaseKeys[j]]
 	})
 	// ensure continuous sequence
-	publishAtLeastOnceKeys = cleanSequence(publishAtLeastOnceKeys, "PUBLISH at-least-once", &warn)
-	publishExactlyOnceKeys = cleanSequence(publishExactlyOnceKeys, "PUBLISH exactly-once", &warn)
-	publishReleaseKeys = cleanSequence(publishReleaseKeys, "PUBREL", &warn)
+	publishAtLeastOnceKeys = cleanSequence(p, publishAtLeastOnceKeys, "PUBLISH at-least-once", &warn)
+	publishExactlyOnceKeys = cleanSequence(p, publishExactlyOnceKeys, "PUBLISH exactly-once", &warn)
+	publishReleaseKeys = cleanSequence(p, publishReleaseKeys, "PUBREL", &warn)
 	if len(publishExactlyOnceKeys) != 0 && len(publishReleaseKeys) != 0 {
 		n := publishExactlyOnceKeys[0] & publishIDMask
-		p := publishReleaseKeys[len(publishReleaseKeys)-1] & publishIDMask
-		if n-p != 1 && !(n == 0 && p == publishIDMask) {
+		last := publishReleaseKeys[len(publishReleaseKeys)-1] & publishIDMask
+		if n-last != 1 && !(n == 0 && last == publishIDMask) {
 			warn = append(warn, fmt.Errorf("mqtt: PUBREL %#x–%#x dropped ☠️ due gap until PUBLISH %#x",
 				publishReleaseKeys[0], publishReleaseKeys[len(publishReleaseKeys)-1], publishExactlyOnceKeys[0]))
+			abandon(p, publishReleaseKeys, &warn)
 			publishReleaseKeys = nil
 		}
 	}
@@ -994,18 +995,30 @@ func AdoptSession(p Persistence, c *Config) (client *Client, warn []error, fatal
 	return client, warn, nil
 }
 
-func cleanSequence(keys []uint, name string, warn *[]error) []uint {
+func cleanSequence(p Persistence, keys []uint, name string, warn *[]error) []uint {
 	for i := 1; i < len(keys); i++ {
 		n := keys[i] & publishIDMask
-		p := keys[i-1] & publishIDMask
-		if n-p == 1 || n == 0 && p == publishIDMask {
+		prev := keys[i-1] & publishIDMask
+		if n-prev == 1 || n == 0 && prev == publishIDMask {
 			continue
 		}
 
 		*warn = append(*warn, fmt.Errorf("mqtt: %s %#x–%#x dropped ☠️ due gap until %#x", name, keys[0], keys[i-1], keys[i]))
+		abandon(p, keys[:i], warn)
 
 		keys = keys[i:]
 		i = 0
 	}
 	return keys
+}
+
+// Abandon removes records which are no longer part of the session. Leftovers
+// would be taken for session content again by the next AdoptSession.
+func abandon(p Persistence, keys []uint, warn *[]error) {
+	for _, key := range keys {
+		err := p.Delete(key)
+		if err != nil {
+			*warn = append(*warn, fmt.Errorf("mqtt: record %#x not deleted: %w", key, err))
+		}
+	}
 }
